@@ -454,6 +454,30 @@ func checkC08(c *Ctx) *core.Result {
 	// ---- V6: the fingerprint field is written only in the pass function, from
 	// a Builder fed with token classes, or the constant "X".
 	evil := int64(classEvil)
+	// helpers that are called from the pass function only (directly or through each other)
+	passOnly := map[*ssa.Function]bool{pass: true}
+	for changed := true; changed; {
+		changed = false
+		for _, fn := range p.SourceFuncs(nil) {
+			if passOnly[fn] {
+				continue
+			}
+			n := p.Graph.Nodes[fn]
+			if n == nil || len(n.In) == 0 {
+				continue
+			}
+			all := true
+			for _, e := range n.In {
+				if !passOnly[e.Caller.Func] {
+					all = false
+				}
+			}
+			if all {
+				passOnly[fn] = true
+				changed = true
+			}
+		}
+	}
 	for _, fn := range p.SourceFuncs(nil) {
 		for _, b := range fn.Blocks {
 			for _, ins := range b.Instrs {
@@ -462,7 +486,7 @@ func checkC08(c *Ctx) *core.Result {
 					continue
 				}
 				expr := "store fingerprint = " + st.Val.String()
-				if fn != pass {
+				if !passOnly[fn] {
 					r.Fail("V6", core.QualName(fn), expr, p.Pos(st.Pos()), "fingerprint written outside the per-context pass function")
 					continue
 				}
